@@ -116,3 +116,66 @@ def mentions_field(n, field):
         if x.get("k") == "mem" and x.get("n") == field:
             return True
     return False
+
+
+def enclosing_loops(fn, node):
+    """Enclosing for/while/forrange statements of node, innermost first."""
+    for a in fn.ancestors(node):
+        if a.get("k") in ("for", "while", "do", "forrange"):
+            yield a
+
+
+def loop_container(fn, loop, var_decl=None):
+    """The container expression a loop ranges over:
+       for (it = C.begin(); it != C.end(); ++it)   -> C
+       for (T x : C)                                -> C
+    If var_decl is given, the loop must be the one binding that variable."""
+    if loop.get("k") == "forrange":
+        if var_decl is not None and loop.get("vd") != var_decl:
+            return None
+        return peel(loop.get("range"))
+    if loop.get("k") == "for":
+        for part in (loop.get("init"), loop.get("c")):
+            if part is None:
+                continue
+            for x in walk(part):
+                if x.get("k") == "call" and "this" in x and callee_short(x) in ("begin", "end", "cbegin", "cend", "rbegin", "rend"):
+                    if var_decl is not None:
+                        # the loop's init/cond must mention the variable
+                        if not any(refs_local(p, var_decl) for p in (loop.get("init"), loop.get("c")) if p):
+                            continue
+                    return peel(x["this"])
+    return None
+
+
+def iter_container(fn, node, it_ref):
+    """Container that the iterator/loop variable referenced by it_ref (a 'ref'
+    node to a local) ranges over, judged from the enclosing loops of node."""
+    d = it_ref.get("d")
+    for lp in enclosing_loops(fn, node):
+        if lp.get("k") == "forrange" and lp.get("vd") == d:
+            return peel(lp.get("range")), lp
+        if lp.get("k") == "for":
+            c = loop_container(fn, lp, d)
+            if c is not None:
+                return c, lp
+    return None, None
+
+
+def local_ref(n):
+    n = peel(n)
+    if n is not None and n.get("k") == "ref" and n.get("dk") in ("local", "param"):
+        return n
+    return None
+
+
+def resolve_typedef(db, t, depth=0):
+    """Expand repo typedefs in a type spelling (one level of alias at a time)."""
+    t = t.strip()
+    if depth > 6:
+        return t
+    base = t.replace("const ", "").replace("&", "").strip()
+    td = db.typedefs.get(base)
+    if td is not None:
+        return resolve_typedef(db, td["t"], depth + 1)
+    return t
